@@ -19,7 +19,7 @@ type spec struct {
 	Cfg      hx.GCfg
 	Deco     int    // number of MessageTransform subscriber decorators in front of the GoChannel
 	Consumer string // ack | hold | nack1 | noread
-	Fallback int     // preemption bound of the fallback search when DPOR does not finish in DPORSec
+	Fallback int    // preemption bound of the fallback search when DPOR does not finish in DPORSec
 	DPORSec  float64
 	Backlog  int    // persistent mode: messages published before the first subscription (replayed to every Subscribe)
 	Actors   string // e.g. "close", "close+close", "close+subscribe", "cancel", "cancel+close", "cancel+subscribe", "close+publish2"
